@@ -191,12 +191,15 @@ fn one_blob(out: &mut Out, rng: &mut Rng, kind: Kind, pt_len: usize, full: bool)
     }
     // nothing secret inside the blob
     out.obs("leak_scans", 1);
-    if contains(&blob, &pt) || contains(&blob, &pt[..16]) {
-        out.violation("C14 leak seed-in-blob", "blob contains the plaintext seed", desc.clone());
+    // any 8-byte window of a secret counts (a partial leak is a leak; a chance match is 2^-64)
+    let window_hit = |secret: &[u8]| secret.windows(8).position(|w| contains(&blob, w));
+    if let Some(off) = window_hit(&pt) {
+        out.violation("C14 leak seed-in-blob", &format!("blob contains bytes {}.. of the plaintext seed", off), desc.clone());
     }
     for dek in p.seen_deks.borrow().iter() {
-        if contains(&blob, dek) || contains(&blob, &dek[..16]) {
-            out.violation(&format!("C14 leak dek-in-blob {}", kind_sig(kind)), "blob contains the unwrapped data key", desc.clone());
+        if let Some(off) = window_hit(dek) {
+            let at = blob.windows(8).position(|w| w == &dek[off..off + 8]).unwrap_or(0);
+            out.violation(&format!("C14 leak dek-in-blob region={}", region_of(&blob, at)), &format!("blob contains bytes {}.. of the unwrapped data key at blob offset {}", off, at), desc.clone());
         }
     }
     if p.seen_deks.borrow().len() != 1 || p.seen_deks.borrow()[0].len() != 32 {
